@@ -44,9 +44,9 @@ BUDGET = {"quick": 150, "thorough": 1500}
 
 # mechanisms after which a history keeps being observed (each is reported once per case; see the final report)
 CONTINUE_SIGS = {
-  "lockstep:countdown:velocity_tested_after_integration",
-  "lockstep:awake_set:velocity_tested_after_integration",
-  "cycle:rebuilt_while_asleep:sleeping_tree_in_island",
+  "lockstep:wake_countdown:tendon_limit",
+  "lockstep:velocity_tested_after_integration",
+  "cycle:rebuilt_while_asleep",
 }
 MINAWAKE = int(mujoco.mjMINAWAKE)
 K_AWAKE = -(1 + MINAWAKE)
@@ -173,8 +173,9 @@ class Topo:
       lo, hi = mjm.tendon_range[i]
       mg = float(mjm.tendon_margin[i])
       dlo, dhi = L - lo, hi - L
-      # skip the float32 grey zone around activation
-      if min(abs(dlo - mg), abs(dhi - mg)) < 1e-5:
+      # float32 grey zone around activation: a possible wake cause, but no obligation to wake
+      if min(abs(dlo - mg), abs(dhi - mg)) < 1e-5 * max(1.0, abs(L)):
+        out.append(("tendon_limit?", tuple(ts)))
         continue
       if dlo < mg or dhi < mg:
         out.append(("tendon_limit", tuple(ts)))
@@ -324,7 +325,7 @@ class WorldMon:
       isl_now = mid["tree_island"][w] if mid is not None else None
       if isl_now is not None and all(isl_now[t] >= 0 for t in rebuilt):
         rec.viol(
-          "cycle:rebuilt_while_asleep:sleeping_tree_in_island",
+          "cycle:rebuilt_while_asleep",
           f"trees {rebuilt} stayed asleep but their tree_asleep pointers were rewritten {A0.tolist()} -> {A1.tolist()}: the sleeping trees still own constraint rows (tree_island {isl_now.tolist()}) and sleep() rebuilt a cycle over that island only; well-formed cycles afterwards: {ok1} {ctx}",
           trees=rebuilt,
         )
@@ -398,6 +399,8 @@ class WorldMon:
         for t in c:
           cyc_of[t] = c
       for kind, ts in links:
+        if kind.endswith("?"):
+          continue
         rec.check()
         st = [bool(Sm[t]) for t in ts]
         if any(st) and not all(st):
@@ -429,7 +432,7 @@ class WorldMon:
             if any(t in just for t in ts) and not all(t in just for t in ts):
               for t in ts:
                 if t not in just:
-                  cause[t] = kind
+                  cause[t] = kind.rstrip("?")
                 just.add(t)
               changed = True
         for t in np.nonzero(woke)[0]:
@@ -499,7 +502,7 @@ def mj_onestep(mjm, mjd, pre, w):
   mujoco.mj_step(mjm, mjd)
 
 
-def lockstep(rec, topo, mjd, pre, mid, post, w, ctx, iterations):
+def lockstep(rec, topo, mjd, pre, mid, post, w, ctx, iterations, wlinks=None):
   mjm = topo.mjm
   try:
     mj_onestep(mjm, mjd, pre, w)
@@ -542,8 +545,14 @@ def lockstep(rec, topo, mjd, pre, mid, post, w, ctx, iterations):
         rec.count("lockstep_ungated_velocity_side")
         continue
       if topo.can_sleep(t, pre["qvel"][w], qf, xf)[0] != topo.can_sleep(t, qw, qf, xf)[0]:
-        sig = "lockstep:countdown:velocity_tested_after_integration"
+        sig = "lockstep:velocity_tested_after_integration"
         why = " -- the tree's pre-step velocity and post-step velocity are on different sides of sleep_tolerance: MuJoCo tests the velocity before integrating, MJWarp after"
+      elif pre["tree_asleep"][w][t] >= 0:
+        # the tree was woken during this step: which countdown a woken tree starts with depends on the wake path
+        kinds = sorted(set(k.rstrip("?") for k, ts in (wlinks or []) if int(t) in ts))
+        kind = kinds[0] if len(kinds) == 1 else ("several" if kinds else "other")
+        sig = f"lockstep:wake_countdown:{kind}"
+        why = f" -- tree woken in this step through {kinds or 'an unknown path'}: MuJoCo lets it inherit the countdown of the tree that woke it"
       else:
         sig, why = "lockstep:countdown", ""
       rec.viol(
@@ -575,7 +584,7 @@ def lockstep(rec, topo, mjd, pre, mid, post, w, ctx, iterations):
     mates = [int(u) for u in np.nonzero(isl == isl[t])[0]] if isl is not None and isl[t] >= 0 else [int(t)]
     awake_q = qm if Sw[t] else qw
     if any(topo.can_sleep(u, pre["qvel"][w], qf, xf)[0] != topo.can_sleep(u, awake_q, qf, xf)[0] for u in mates):
-      sig = "lockstep:awake_set:velocity_tested_after_integration"
+      sig = "lockstep:velocity_tested_after_integration"
       why = " -- pre-step and post-step velocities of the island are on different sides of sleep_tolerance: MuJoCo tests the velocity before integrating, MJWarp after"
   rec.viol(
     sig,
@@ -691,7 +700,8 @@ def run_hist(case, rec):
       check_derived(rec, topo, post, w, ctx)
       if split:
         check_derived(rec, topo, {"tree_asleep": mid["tree_asleep"], "tree_awake": mid["tree_awake"]}, w, ctx + " after forward")
-      lockstep(rec, topo, mjd, pre, mid if split else {**mid, "tree_asleep": post["tree_asleep"]}, post, w, ctx, iterations)
+      wl = topo.links(mid["con_geom"][mid["con_world"] == w], pre["eq_active"][w], mid["ten_length"][w])
+      lockstep(rec, topo, mjd, pre, mid if split else {**mid, "tree_asleep": post["tree_asleep"]}, post, w, ctx, iterations, wlinks=wl)
     if any(v["sig"] not in CONTINUE_SIGS for v in rec.violations) or all(mn.retired for mn in mons):
       break
   nslept = sum(mn.nslept for mn in mons)
@@ -852,7 +862,7 @@ def run_wakeorder(case, rec):
   rec.cover("wakeorder_variant:" + variant, 1)
   rec.cover("wakeorder_cycle_woke_by_two_contacts", int(woke))
   for label in ("reverse", "random", "rotate"):
-    compare_rollouts(rec, topo, res["identity"], res[label], "wakeorder_" + label, sig="sched:wake_collision_order:awake_set")
+    compare_rollouts(rec, topo, res["identity"], res[label], "wakeorder_" + label, sig="sched:wake_collision_order")
   if woke:
     rec.nontrivial("wakeorder", variant, jac, cx, cy)
   rec.sample = {"kind": "wakeorder", "variant": variant, "countdown_X": cx, "countdown_Y": cy, "after_first_step_identity": res["identity"][0][0][0].tolist(), "after_first_step_reverse": res["reverse"][0][0][0].tolist()}
